@@ -491,7 +491,10 @@ def _check(prop, tier, seed, tmp, t0):
             shutil.copy(os.path.join(tmp, "log_%d" % i), os.path.join(tmp, "log_%d.first" % i))
             argv, env_i, lp = jobs[i]
             if skipped:
-                argv = [a for a in argv if not a.startswith("-sim.skip=")] + ["-sim.skip=" + ",".join(str(r) for r in skipped)]
+                # go on behind the run the race runtime died in (runs are seeded independently), for half the time
+                argv = [a for a in argv if not a.startswith("-sim.skip=") and not a.startswith("-sim.from=")] + ["-sim.from=%d" % (max(skipped) + 1)]
+                k = argv.index("-sim.secs")
+                argv[k + 1] = str(max(30, secs // 2))
                 jobs[i] = (argv, env_i, lp)
             rc_before = rc
             rc = run_procs([jobs[i]], secs * 4 + 900)[0]
@@ -499,7 +502,7 @@ def _check(prop, tier, seed, tmp, t0):
                 rc = 67
             transient.append("process %d (%s) died (rc=%s) in a run that %s; its batch was re-run%s (rc=%s)" % (
                 i, meta[i], rc_before, "dies only in the race-detector build (race runtime), not in the plain build" if skipped else "does not reproduce the death",
-                " without run(s) %s" % skipped if skipped else "", rc))
+                " from the run after %s on" % skipped if skipped else "", rc))
         if rc == 0 and os.path.exists(p):
             s = json.load(open(p))
             s["engine"] = meta[i]
